@@ -52,6 +52,7 @@ def materialise(hist):
         elif k == 'GS': segs.append(['GS', 'HC'] + (['S', 'R'] if len(ev) < 3 else ['S2', 'R2']) + ['20040608', '1333', fmt_id('GS', ev[1]), 'X', '004010X098A1'])
         elif k == 'ST': segs.append(['ST', '837' if len(ev) < 3 else '835', fmt_id('ST', ev[1])])
         elif k == 'X': segs.append(['REF', 'A', 'B'])
+        elif k == 'XB': segs.append(['REFX', 'A', 'B'])       # a body segment whose identifier is not well formed: still a segment of the set
         elif k == 'CLM': segs.append(['CLM', 'A', '1'])
         elif k == 'LX': segs.append(['LX', ev[1]])
         elif k == 'HL': segs.append(['HL', ev[1], ev[2], '20', '1'])
@@ -77,7 +78,7 @@ def alphabet_narrow():
     evs = []
     for i in (1, 2):
         evs += [('ISA', i), ('GS', i), ('ST', i)]
-    evs += [('X',), ('HL', '1', ''), ('HL', '2', '1')]
+    evs += [('X',), ('XB',), ('HL', '1', ''), ('HL', '2', '1')]
     for k in ('SE', 'GE', 'IEA'):
         for c in ('ok', '+1'):
             for i in ('own', 'other'):
@@ -105,7 +106,7 @@ def alphabet(thorough):
     evs = []
     for i in (1, 2):
         evs += [('ISA', i), ('GS', i), ('ST', i)]
-    evs += [('X',), ('CLM',), ('LX', '1'), ('LX', '2')]
+    evs += [('X',), ('XB',), ('CLM',), ('LX', '1'), ('LX', '2')]
     for n in ('1', '2', '3'):
         for p in ('', '1', '2', 'x'):
             evs.append(('HL', n, p))
@@ -261,7 +262,7 @@ def run(R):
     s5 = bfs.search(R, expand_ids, [[]], d_ids, 'ids', max_states=3000000)
     R.cov['searches'] = [s1, s2, s3, s4, s5]
     R.bounds = {'alphabet': len(ALPHA), 'depth_lx': d_lx, 'depth_nolx': d_nolx, 'depth_narrow': d_narrow, 'narrow_alphabet': len(NARROW), 'depth_lx_narrow': d_lxn, 'lx_narrow_alphabet': len(LXNARROW), 'depth_ids': d_ids, 'ids_alphabet': len(IDS),
-                'events': 'ISA/GS/ST with id 1|2, body, CLM, LX 1|2, HL n in 1..3 x parent in {none,1,2,x}, SE/GE/IEA x count {true,true+1,x,empty,bare} x id {own,other}; ids search: ISA/GS/ST with id 1 (also under another sender/receiver pair or set type) | A, SE/GE/IEA x id {own, same number written differently, other non-numeric text}'}
+                'events': 'ISA/GS/ST with id 1|2, body, body with a malformed segment id, CLM, LX 1|2, HL n in 1..3 x parent in {none,1,2,x}, SE/GE/IEA x count {true,true+1,x,empty,bare} x id {own,other}; ids search: ISA/GS/ST with id 1 (also under another sender/receiver pair or set type) | A, SE/GE/IEA x id {own, same number written differently, other non-numeric text}'}
     R.assumptions = ['HL/LX verdicts are not compared outside a transaction set, after the first HL parent error of a set, or for LX before any CLM (left open by the statement)',
                      'states are merged on (reader attributes, reference bookkeeping); histories are replayed on a fresh reader for every transition']
     return R.finish(LEVEL, 'BFS over segment histories; distinct = (nesting, last segment id, expected error codes)', exhaustive=True)
